@@ -1,6 +1,6 @@
 (* C06 property theorems. Statements closed by `exact lemma`, followed by Print Assumptions. *)
-From Coq Require Import ZArith NArith List Bool String.
-From OG Require Import C06.Model C06.Proofs C06.ProofsInt C06.ProofsRender.
+From Coq Require Import ZArith NArith List Bool String Lia.
+From OG Require Import C06.Model C06.Proofs C06.ProofsInt C06.ProofsDec C06.ProofsRender.
 Import ListNotations.
 Open Scope Z_scope.
 
@@ -128,15 +128,29 @@ Theorem C06_parse_render_field : forall d k v,
 Proof. exact parse_field_render. Qed.
 Print Assumptions C06_parse_render_field.
 
-(* parse_render, line level. PARTIAL: points without tags; the decimal round trips of integers and of the timestamp
-   are premises (inside valid_field / the last hypothesis); see ProofsRender.v. *)
-Theorem C06_parse_render_partial : forall d name fs ts,
-  valid_name name -> fs <> [] -> Forall (valid_field d) fs ->
-  parse_ts (render_nat ts) = Ok (Some ts) ->
-  parse_line d cfg_repaired (render {| p_name := name; p_tags := []; p_fields := fs; p_ts := ts |}) =
-  Ok {| r_name := name; r_tags := []; r_fields := map (store_field d) fs; r_ts := Some ts |}.
-Proof. exact parse_render_notags_partial. Qed.
-Print Assumptions C06_parse_render_partial.
+(* parse_render, at full strength (repaired parser, ANY float conversion d): for every valid point - measurement of any
+   bytes, any number of tags with any key/value bytes, any number of fields, every int64, every valid finite float
+   literal, every string, every timestamp 0..max int64 - the canonical rendering parses back to exactly that point:
+   same measurement, the tags sorted by key, every field with the value it denotes, the timestamp. No premises
+   beyond [valid]. *)
+Theorem C06_parse_render : forall d p, valid d p -> parse_line d cfg_repaired (render p) = Ok (store d p).
+Proof. exact parse_render. Qed.
+Print Assumptions C06_parse_render.
+
+(* the same with the stored floats spelled out as the correctly rounded binary64 of their literals, under the single
+   hypothesis about the conversion the parser calls *)
+Theorem C06_parse_render_exact : forall dec2f,
+  (forall s, valid_number s = true -> dec2f s = dec2f_exact s) ->
+  forall p, valid dec2f p -> parse_line dec2f cfg_repaired (render p) = Ok (store dec2f_exact p).
+Proof. exact parse_render_exact. Qed.
+Print Assumptions C06_parse_render_exact.
+
+(* 64-bit integers keep every digit, timestamps too: the decimal round trips, for every value *)
+Theorem C06_int_decimal_roundtrip : forall n, in_int64 n = true -> parse_int64 (render_int n) = Ok n.
+Proof. exact parse_int64_render_int. Qed.
+Theorem C06_ts_decimal_roundtrip : forall t, 0 <= t <= max_int64 -> parse_ts (render_nat t) = Ok (Some t).
+Proof. exact parse_ts_render_nat. Qed.
+Print Assumptions C06_ts_decimal_roundtrip.
 
 Theorem C06_parse_render_tag : forall k v,
   k <> [] -> v <> [] -> (List.length k <= max_key_len)%nat -> (Z.of_nat (List.length v) <= max_tagval_len) ->
@@ -155,13 +169,26 @@ Print Assumptions C06_float_stored_correctly_rounded.
 (* the hypothesis is satisfiable (by the exact conversion itself), and the decimal premises hold on the boundary values *)
 Example C06_dec2f_hypothesis_satisfiable : forall s, valid_number s = true -> dec2f_exact s = dec2f_exact s.
 Proof. reflexivity. Qed.
-Example C06_decimal_premises :
-  map (fun n => parse_int64 (render_int n))
-      [0; 1; -1; 9007199254740993; -9007199254740993; 9223372036854775807; -9223372036854775808; 1000000000000000000]
-  = map Ok [0; 1; -1; 9007199254740993; -9007199254740993; 9223372036854775807; -9223372036854775808; 1000000000000000000] /\
-  map (fun t => parse_ts (render_nat t)) [0; 1; 1600000000000000000; 9223372036854775807]
-  = map (fun t => Ok (Some t)) [0; 1; 1600000000000000000; 9223372036854775807].
-Proof. split; vm_compute; reflexivity. Qed.
+Example C06_valid_satisfiable :
+  valid dec2f_exact
+    {| p_name := bs "m 1"; p_tags := [(bs "t=k", bs "v,w"); (bs "a", bs "\")];
+       p_fields := [(bs "s", PStr (bs "q"" e\")); (bs "i", PInt (-9223372036854775808)); (bs "f", PFloat (bs "2.5e-1")); (bs "b", PBool true)];
+       p_ts := 9223372036854775807 |}.
+Proof.
+  unfold valid. cbn [p_name p_tags p_fields p_ts]. split; [|split; [|split; [|split]]].
+  - unfold valid_name. split; [discriminate|]. split; [vm_compute; lia|]. split; reflexivity.
+  - constructor; [|constructor; [|constructor]]; unfold valid_tag; cbn [fst snd];
+      (split; [discriminate|split; [discriminate|split; [vm_compute; lia|apply Z.leb_le; reflexivity]]]).
+  - discriminate.
+  - constructor; [|constructor; [|constructor; [|constructor; [|constructor]]]];
+      unfold valid_pfield, valid_key, no_quote; cbn [fst snd valid_pval];
+      (split; [split; [discriminate|vm_compute; lia]|split; [repeat constructor|]]).
+    + exact I.
+    + reflexivity.
+    + split; vm_compute; reflexivity.
+    + exact I.
+  - unfold max_int64. change (2 ^ 63) with 9223372036854775808. lia.
+Qed.
 Example C06_example_render :
   render {| p_name := bs "m 1"; p_tags := [(bs "t=k", bs "v,w")];
             p_fields := [(bs "s", PStr (bs "q"" e\")); (bs "i", PInt (-42)); (bs "f", PFloat (bs "2.5e-1"))]; p_ts := 7 |}
